@@ -509,6 +509,12 @@ class Exec:
                 val = V("int", "isize", 0)
             elif v.kind in ("brk", "err"):
                 val = V("int", "isize", 1)
+            elif v.kind == "opt":
+                # None = 0, Some = 1
+                if v.parts[0] is True or v.parts[0] is False:
+                    val = V("int", "isize", 1 if v.parts[0] else 0)
+                else:
+                    val = V("optdisc", "isize", v.parts[0])
             else:
                 raise Unsupported("discriminant of %s" % v.kind)
         elif re.fullmatch(r"Option::<.+>::None", rhs):
@@ -583,6 +589,17 @@ class Exec:
                 p.side.append(("is_some", o.parts[0]))
             p.env[dst] = o.parts[1]
             return
+        m = re.search(r"<(\w+) as (?:df::)?BiasSub>::bias_sub", callee)
+        if m:
+            # src/df/mod.rs: integers -> checked_sub, floats -> Some(self - bias)
+            ty = m.group(1)
+            a, b = args
+            if ty in FLOAT:
+                p.env[dst] = V("opt", None, None, [True, V("float", ty, d.float_bin("Sub", a.t, b.t, ty))])
+            else:
+                r, ov = d.int_bin("Sub", a.t, b.t, ty)
+                p.env[dst] = V("opt", None, None, [d.not_(ov), V("int", ty, r)])
+            return
         raise Unsupported("call %s" % callee)
 
     def _run(self, p, bb, depth):
@@ -621,6 +638,15 @@ class Exec:
                         if k == val:
                             return self._run(p, b, depth + 1)
                     return self._run(p, other, depth + 1)
+                if v.kind == "optdisc":
+                    t1 = [b for k, b in targets if k == 1]
+                    t0 = [b for k, b in targets if k == 0]
+                    p2 = p.clone()
+                    p.cond.append(v.t)
+                    p2.cond.append(d.not_(v.t))
+                    self._run(p, t1[0] if t1 else other, depth + 1)
+                    self._run(p2, t0[0] if t0 else other, depth + 1)
+                    return
                 if v.kind != "bool":
                     raise Unsupported("symbolic switch on non-bool in %s" % self.f.name)
                 # bool: 0 -> false target
